@@ -6,7 +6,9 @@ package main
 import (
 	"encoding/json"
 	"fmt"
+	"os"
 	"regexp"
+	"strconv"
 	"strings"
 	"time"
 
@@ -20,6 +22,28 @@ import (
 type c08Diag struct {
 	Typ  int
 	Line int
+	// the rest of what the client is shown: start column, end line, end column, message text
+	SC, EL, EC int
+	Msg        string
+}
+
+// c08Tag: short stable hash (FNV-1a, 32 bit, printed in base 36) of "<start col>,<end line>,<end col>:<message>" with the
+// given roots replaced by "$" in the message; C08_RAWTAG=1 prints that string itself (spaces as "_") for debugging.
+func c08Tag(d c08Diag, roots []string) string {
+	m := d.Msg
+	for _, r := range roots {
+		m = strings.Replace(m, r, "$", -1)
+	}
+	raw := fmt.Sprintf("%d,%d,%d:%s", d.SC, d.EL, d.EC, m)
+	if os.Getenv("C08_RAWTAG") != "" {
+		return strings.Replace(raw, " ", "_", -1)
+	}
+	h := uint32(2166136261)
+	for i := 0; i < len(raw); i++ {
+		h ^= uint32(raw[i])
+		h *= 16777619
+	}
+	return strconv.FormatUint(uint64(h), 36)
 }
 
 type c08Srv struct {
@@ -88,7 +112,12 @@ func (s *c08Srv) handleIncoming(b []byte) (respID string, isResp bool) {
 				Range struct {
 					Start struct {
 						Line int `json:"line"`
+						Char int `json:"character"`
 					} `json:"start"`
+					End struct {
+						Line int `json:"line"`
+						Char int `json:"character"`
+					} `json:"end"`
 				} `json:"range"`
 				Message string `json:"message"`
 			} `json:"diagnostics"`
@@ -102,7 +131,7 @@ func (s *c08Srv) handleIncoming(b []byte) (respID string, isResp bool) {
 			if mm := c08TypeRe.FindStringSubmatch(d.Message); mm != nil {
 				fmt.Sscanf(mm[1], "%d", &t)
 			}
-			l = append(l, c08Diag{t, d.Range.Start.Line})
+			l = append(l, c08Diag{t, d.Range.Start.Line, d.Range.Start.Char, d.Range.End.Line, d.Range.End.Char, d.Message})
 		}
 		s.view[p.URI] = l
 		s.pushes++
@@ -169,7 +198,7 @@ func (s *c08Srv) initialize(root string, pluginPath string) {
 		"rootUri":   "file://" + root,
 		"initializationOptions": map[string]interface{}{
 			"client": "vsc", "LocalRun": true, "AllEnable": true, "PluginPath": pluginPath,
-			"CheckSyntax": true, "CheckNoDefine": true, "CheckLocalNoUse": true, "CheckReferNoFile": true,
+			"CheckSyntax": true, "CheckNoDefine": true, "CheckAfterDefine": true, "CheckFuncParam": true, "CheckLocalNoUse": true, "CheckReferNoFile": true,
 		},
 		"capabilities": map[string]interface{}{},
 	})
@@ -218,7 +247,7 @@ func (s *c08Srv) watched(evs []c08Watched) {
 }
 
 // renderView prints the folded view canonically: files in the fixed order of `names` (path -> short name),
-// unknown URIs last (sorted) with their path relativised; diagnostics in the order sent: "t@line".
+// unknown URIs last (sorted) with their path relativised; diagnostics in the order sent: "t@line#tag" (c08Tag).
 func (s *c08Srv) renderView(order []string, short map[string]string, roots []string) string {
 	var parts []string
 	seen := map[string]bool{}
@@ -228,7 +257,7 @@ func (s *c08Srv) renderView(order []string, short map[string]string, roots []str
 		}
 		ds := make([]string, len(l))
 		for i, d := range l {
-			ds[i] = fmt.Sprintf("%d@%d", d.Typ, d.Line)
+			ds[i] = fmt.Sprintf("%d@%d#%s", d.Typ, d.Line, c08Tag(d, roots))
 		}
 		parts = append(parts, name+":"+strings.Join(ds, ","))
 	}
